@@ -3,13 +3,20 @@ C09 — panel likelihood: product over each individual's rows, with shared draws
 Property theorems only (helper lemmas in Proofs/Panel.lean, Proofs/PanelMap.lean,
 Proofs/PanelReal.lean).
 
+Round 3 (Model/PanelCode.lean, Proofs/PanelCode.lean): `countGroupsCode` = count_number_of_groups as
+written, `tableValuesMC` / `tableValuesMulti` the table-level pipelines with draws / with several
+trajectory operators, `resample` / `Sess` the bootstrap loop, `Obj` one BIOGEME object while the table
+changes, `scaledOutput` / `bhhhPanel` the derivatives by individuals.
+
 `panelOk` is the test of `Database.panel`, `panelMap` the table built by `build_panel_map`,
 `trajectory`/`mcPanel` the engine's operators (modelled from bioExprPanelTrajectory.cc,
 bioExprMontecarlo.cc, bioExprDraws.cc — not verified), `tableValues` the whole pipeline
 table → sort by id → map → one value per individual.
 -/
 import Model.Panel
+import Model.PanelCode
 import Proofs.Panel
+import Proofs.PanelCode
 import Proofs.PanelMap
 import Proofs.PanelReal
 
@@ -391,5 +398,260 @@ theorem scaled_by_individuals (ids : List Int) (v : ℝ) :
   simp only [NumR.div_real, NumR.nat_real]
 
 example : sampleSize [-3, 7, 7, 7, 12, 12] = 3 ∧ [-3, 7, 7, 7, 12, 12].length = 6 := by decide
+
+
+/-! ## round 3: more of the code -/
+
+/-! ### count_number_of_groups as written (`!= shift(1)`, `cumsum`, `unique`) -/
+
+/-- **the code's counter returns the number of runs of equal ids, for every id column**: the value
+before the first row is NaN, so the first row starts a group whatever its id (0, negative, …) -/
+theorem count_groups_code (ids : List Int) : countGroupsCode ids = countGroups ids :=
+  countGroupsCode_eq ids
+
+/-- hence the test of `Database.panel`, with the counter as written, accepts exactly the contiguous tables -/
+theorem contiguous_iff_code (ids : List Int) : panelOkCode ids = true ↔ Contiguous ids := by
+  unfold panelOkCode
+  rw [count_groups_code, count_groups_code]
+  exact contiguous_iff ids
+
+example : countGroupsCode [0, 0, 3, 3, -2] = 3 ∧ countGroupsCode [3, 3, 0, 0, 0, 2, 1, 1] = 4
+    ∧ countGroupsCode [] = 0 ∧ countGroupsCode [0] = 1 := by decide
+example : panelOkCode [3, 3, 0, 0, 0, 2, 1, 1] = true ∧ panelOkCode [5, 5, 9, 9, 9, 0, 2, 2] = true
+    ∧ panelOkCode [0, 1, 0] = false := by
+  rw [Bool.eq_false_iff, ne_eq, contiguous_iff_code, contiguous_iff_code, contiguous_iff_code]
+  unfold Contiguous; decide
+
+/-- a fill value in place of the NaN before the first row is *not* equivalent: with fill value 0 a
+contiguous table whose smallest id is 0, not in the first block, would be refused -/
+theorem fill_value_counter_differs :
+    countGroupsFill 0 [3, 3, 0, 0, 2] ≠ countGroupsFill 0 [0, 0, 2, 3, 3] ∧
+    countGroupsCode [3, 3, 0, 0, 2] = countGroupsCode [0, 0, 2, 3, 3] := by decide
+
+/-! ### several trajectory operators in one formula (latent classes) -/
+
+/-- **every trajectory operator of a formula returns the product over exactly the rows of the
+individual**, whatever combines them afterwards (no additivity needed) -/
+theorem table_values_multi {ρ : Type} (comb : List ℝ → ℝ) (gs : List (ρ → ℝ)) (dflt : ρ)
+    (t : List (Int × ρ)) (hpos : ∀ g ∈ gs, ∀ p ∈ t, 0 < g p.2) :
+    tableValuesMulti comb gs dflt t =
+      ((sortTable t).map (·.1)).eraseDups.map fun a =>
+        (a, comb (gs.map fun g => ((t.filter fun p => decide (p.1 = a)).map fun p => g p.2).prod)) := by
+  unfold tableValuesMulti
+  simp only
+  unfold panelMap
+  rw [List.map_map]
+  apply List.map_congr_left
+  intro a ha
+  simp only [Function.comp]
+  congr 2
+  apply List.map_congr_left
+  intro g hg
+  exact traj_entry_table g dflt t a (List.mem_eraseDups.mp ha) (hpos g hg)
+
+/-- … and the list (individual, value) does not depend on the order of the rows of the table -/
+theorem table_multi_perm_invariant {ρ : Type} (comb : List ℝ → ℝ) (gs : List (ρ → ℝ)) (dflt : ρ)
+    (t t' : List (Int × ρ)) (hp : t.Perm t') (hpos : ∀ g ∈ gs, ∀ p ∈ t, 0 < g p.2) :
+    tableValuesMulti comb gs dflt t' = tableValuesMulti comb gs dflt t := by
+  have hpos' : ∀ g ∈ gs, ∀ p ∈ t', 0 < g p.2 := fun g hg p h => hpos g hg p (hp.mem_iff.mpr h)
+  rw [table_values_multi comb gs dflt t hpos, table_values_multi comb gs dflt t' hpos', sorted_ids_eq t t' hp]
+  apply List.map_congr_left
+  intro a _
+  congr 2
+  apply List.map_congr_left
+  intro g _
+  exact (List.Perm.prod_eq ((hp.filter _).map _)).symm
+
+/-- the latent-class log likelihood of an individual: `log(w·Π f₁ + (1−w)·Π f₂)`, both products over
+the rows of that individual -/
+theorem latent_class_value {ρ : Type} (w : ℝ) (g1 g2 : ρ → ℝ) (dflt : ρ) (t : List (Int × ρ))
+    (h1 : ∀ p ∈ t, 0 < g1 p.2) (h2 : ∀ p ∈ t, 0 < g2 p.2) :
+    tableValuesMulti (latentClass w) [g1, g2] dflt t =
+      ((sortTable t).map (·.1)).eraseDups.map fun a =>
+        (a, Real.log (w * ((t.filter fun p => decide (p.1 = a)).map fun p => g1 p.2).prod
+          + (1 - w) * ((t.filter fun p => decide (p.1 = a)).map fun p => g2 p.2).prod)) := by
+  rw [table_values_multi]
+  · apply List.map_congr_left
+    intro a _
+    simp [latentClass]
+  · intro g hg
+    simp only [List.mem_cons, List.not_mem_nil, or_false] at hg
+    rcases hg with rfl | rfl
+    · exact h1
+    · exact h2
+
+/-- the hypotheses are satisfiable: two classes, three rows of two individuals given in two orders -/
+example : tableValuesMulti (latentClass (1 / 4)) [fun x : ℝ => Real.exp x, fun x => Real.exp (-x)] 0
+      [(-3, 2), (7, 1), (7, 3)]
+    = tableValuesMulti (latentClass (1 / 4)) [fun x : ℝ => Real.exp x, fun x => Real.exp (-x)] 0
+      [(7, 1), (-3, 2), (7, 3)] :=
+  table_multi_perm_invariant _ _ _ _ _ (List.Perm.swap _ _ _) (by
+    intro g hg p _
+    simp only [List.mem_cons, List.not_mem_nil, or_false] at hg
+    rcases hg with rfl | rfl <;> exact Real.exp_pos _)
+
+/-! ### Monte-Carlo at table level: which draws an individual receives -/
+
+/-- **the individual at position `ind` of the map of the sorted table receives `draws ind r` for all
+its rows**: value = mean over `r` of the product over the rows of the table that carry its id -/
+theorem table_values_mc {ρ : Type} (outer : ℝ → ℝ) (g : ρ → (ℕ → ℝ) → ℝ) (dflt : ρ)
+    (draws : ℕ → ℕ → ℕ → ℝ) (R : ℕ) (t : List (Int × ρ)) (hpos : ∀ p ∈ t, ∀ xi, 0 < g p.2 xi) :
+    tableValuesMC outer g dflt draws R t =
+      (((sortTable t).map (·.1)).eraseDups.zipIdx).map fun q =>
+        (q.1, outer (((List.range R).map fun r =>
+          ((t.filter fun p => decide (p.1 = q.1)).map fun p => g p.2 (draws q.2 r)).prod).sum / (R : ℝ))) := by
+  unfold tableValuesMC
+  simp only
+  unfold panelMap
+  rw [List.zipIdx_map, List.map_map]
+  apply List.map_congr_left
+  rintro ⟨a, ind⟩ hq
+  have ha : a ∈ (sortTable t).map (·.1) := List.mem_eraseDups.mp (List.fst_mem_of_mem_zipIdx hq)
+  simp only [Function.comp, Prod.map_fst, Prod.map_snd, id_eq]
+  congr 2
+  rw [mcPanel_real]
+  congr 2
+  apply List.map_congr_left
+  intro r _
+  exact traj_entry_table (fun x => g x (draws ind r)) dflt t a ha (fun p hp => hpos p hp _)
+
+/-- **with the same draw table, the simulated value of every individual is the same for every order
+of the individuals and of their rows in the table** (the draw row goes with the rank of the id, not
+with the place of the block in the table) -/
+theorem table_mc_perm_invariant {ρ : Type} (outer : ℝ → ℝ) (g : ρ → (ℕ → ℝ) → ℝ) (dflt : ρ)
+    (draws : ℕ → ℕ → ℕ → ℝ) (R : ℕ) (t t' : List (Int × ρ)) (hp : t.Perm t')
+    (hpos : ∀ p ∈ t, ∀ xi, 0 < g p.2 xi) :
+    tableValuesMC outer g dflt draws R t' = tableValuesMC outer g dflt draws R t := by
+  have hpos' : ∀ p ∈ t', ∀ xi, 0 < g p.2 xi := fun p h => hpos p (hp.mem_iff.mpr h)
+  rw [table_values_mc outer g dflt draws R t hpos, table_values_mc outer g dflt draws R t' hpos',
+    sorted_ids_eq t t' hp]
+  apply List.map_congr_left
+  intro q _
+  congr 4
+  apply List.map_congr_left
+  intro r _
+  exact (List.Perm.prod_eq ((hp.filter _).map _)).symm
+
+example (draws : ℕ → ℕ → ℕ → ℝ) :
+    tableValuesMC Real.log (fun (x : ℝ) xi => Real.exp (x * xi 0)) 0 draws 3 [(-3, 2), (7, 1), (7, 3)]
+    = tableValuesMC Real.log (fun (x : ℝ) xi => Real.exp (x * xi 0)) 0 draws 3 [(7, 1), (-3, 2), (7, 3)] :=
+  table_mc_perm_invariant _ _ _ _ _ _ _ (List.Perm.swap _ _ _) (fun _ _ _ => Real.exp_pos _)
+
+/-- **the lines of the map (hence the rows of the draw table) follow the ascending order of the ids**,
+whatever the order of the blocks in the table given: position `k` of the map is the individual with
+the `k`-th smallest id -/
+theorem map_ascending (ids : List Int) :
+    ((panelMap (sortIds ids)).map (·.id)).Pairwise (· < ·) := by
+  rw [panelMap_ids]
+  exact eraseDups_sorted_lt _ (sortIds_sorted ids)
+
+example : (panelMap [-3, -3, 0, 2, 2, 7]).map (·.id) = [-3, 0, 2, 7] := by decide
+
+/-! ### bootstrap on panel data -/
+
+/-- **a bootstrap sample is made of whole individuals**: every line of the resampled map is a line of
+the map of the database (so, by `map_block`, it holds exactly the rows of its id) -/
+theorem bootstrap_whole_individuals (s : List Int) (hs : s.Pairwise (· ≤ ·)) (picks : List Nat)
+    (e : Entry) (he : e ∈ resample (panelMap s) picks) (i : Nat) (hi : i < s.length) :
+    (e.first ≤ i ∧ i ≤ e.last) ↔ s[i]? = some e.id :=
+  map_block s hs e (mem_resample _ _ _ he) i hi
+
+/-- the log likelihood of a bootstrap sample: the values of the picked individuals, one term per pick
+(an individual picked twice counts twice), and the sample has as many lines as picks -/
+theorem bootstrap_loglik (val : Entry → ℝ) (m : List Entry) (picks : List Nat) (d : Entry)
+    (h : ∀ i ∈ picks, i < m.length) :
+    engineLogLik val (resample m picks) = (picks.map fun i => val (m.getD i d)).sum ∧
+    (resample m picks).length = picks.length := by
+  rw [resample_eq_map m picks d h]
+  unfold engineLogLik
+  rw [NumR.sum_real, List.map_map, List.length_map]
+  exact ⟨rfl, rfl⟩
+
+example : resample (panelMap [-3, -3, 2, 7, 7, 7]) [2, 0, 2] = [⟨7, 3, 5⟩, ⟨-3, 0, 1⟩, ⟨7, 3, 5⟩] := by decide
+
+/-- **over histories of public calls on one object** (likelihood, simulate, estimate with or without
+bootstrap, in any order and number): every reported evaluation runs on the full map of the database;
+the resampled maps live inside the bootstrap loop only -/
+theorem session_full_map (m : List Entry) (ops : List SOp) :
+    ∀ used ∈ (Sess.init m).run ops, used = m := by
+  suffices h : ∀ (s : Sess), s.engMap = s.dbMap → ∀ used ∈ s.run ops, used = s.dbMap from
+    h (Sess.init m) rfl
+  induction ops with
+  | nil => intro s _ used hu; simp [Sess.run] at hu
+  | cons op ops ih =>
+    intro s hs used hu
+    simp only [Sess.run, List.mem_cons] at hu
+    have key : (s.step op).2.1 = s.dbMap ∧ (s.step op).1.engMap = (s.step op).1.dbMap ∧
+        (s.step op).1.dbMap = s.dbMap := by
+      cases op with
+      | likelihood => exact ⟨hs, hs, rfl⟩
+      | simulate => exact ⟨rfl, rfl, rfl⟩
+      | estimate boot =>
+        refine ⟨hs, ?_, ?_⟩
+        · simp only [Sess.step]
+          cases boot with
+          | nil => simpa [Sess.bootstrapLoop] using hs
+          | cons p ps => simp
+        · simp only [Sess.step]
+          cases boot with
+          | nil => simp [Sess.bootstrapLoop]
+          | cons p ps => simp [bootstrapLoop_dbMap]
+    rcases hu with rfl | hu
+    · exact key.1
+    · rw [← key.2.2]
+      exact ih (s.step op).1 key.2.1 used hu
+
+example : (Sess.init (panelMap [1, 1, 2, 3])).run [.simulate, .estimate [[2, 2, 0], [1, 1, 1]], .likelihood, .simulate]
+    = List.replicate 4 (panelMap [1, 1, 2, 3]) := by decide
+
+/-! ### one object, the table of its database changed after the object was created -/
+
+/-- **whatever an evaluation on an existing object returns is the value of the table as it is now**:
+over every history of assignments to `database.data`, each followed by an evaluation on the SAME
+object, an evaluation either is refused or returns `tableValues` of the current table -/
+theorem object_history_current {ρ : Type} [BEq ρ] [LawfulBEq ρ] (outer : ℝ → ℝ) (g : ρ → ℝ) (dflt : ρ)
+    (st : DbState ρ) (ts : List (List (Int × ρ))) (k : ℕ) (t : List (Int × ρ)) (vals : List (Int × ℝ))
+    (ht : ts[k]? = some t)
+    (hv : (Obj.history outer g dflt (Obj.create st) ts)[k]? = some (some vals)) :
+    vals = tableValues outer g dflt t :=
+  obj_history_aux outer g dflt ts (Obj.create st) rfl k t vals ht hv
+
+/-- a table that is only reordered is still evaluated; rows dropped: refused -/
+example : (Obj.history (α := ℝ) id (fun (x : ℝ) => x) 0 (Obj.create ⟨[(7, 1), (3, 2)], []⟩)
+    [[(3, 2), (7, 1)], [(3, 2)]]).map Option.isSome = [true, false] := by
+  simp [Obj.history, Obj.create, Obj.evaluate, Obj.setTable, DbState.rebuild, DbState.setTable, sortTable,
+    List.mergeSort, List.merge]
+
+/-! ### scaled output and scores by individuals -/
+
+/-- **all four quantities returned with `scaled=True` are divided by the number of individuals** -/
+theorem scaled_output_by_individuals (ids : List Int) (f : ℝ) (g h b : List ℝ) :
+    scaledOutput (sortIds ids) f g h b =
+      (f / (ids.toFinset.card : ℝ), g.map (· / (ids.toFinset.card : ℝ)),
+        h.map (· / (ids.toFinset.card : ℝ)), b.map (· / (ids.toFinset.card : ℝ))) := by
+  have h1 : scaledBy (α := ℝ) (sortIds ids) = fun v => v / (ids.toFinset.card : ℝ) :=
+    funext (scaled_by_individuals ids)
+  unfold scaledOutput
+  rw [h1]
+
+/-- the BHHH matrix (one parameter) on panel data is the sum over the individuals of the square of the
+individual's score, the score being summed over the rows `first … last` first -/
+theorem bhhh_by_individuals (x : ℕ → ℝ) (m : List Entry) :
+    bhhhPanel x m = (m.map fun e => ((e.rows.map x).sum) ^ 2).sum ∧
+    gradPanel x m = (m.map fun e => (e.rows.map x).sum).sum := by
+  unfold bhhhPanel gradPanel entrySum
+  refine ⟨?_, ?_⟩
+  · rw [NumR.sum_real]
+    congr 1
+    apply List.map_congr_left
+    intro e _
+    rw [NumR.sum_real, NumR.mul_real, pow_two]
+  · rw [NumR.sum_real]
+    congr 1
+    apply List.map_congr_left
+    intro e _
+    rw [NumR.sum_real]
+
+example : (panelMap [-3, -3, 2]).map (·.rows) = [[0, 1], [2]] := by decide
 
 end C09
